@@ -20,7 +20,7 @@ quantified ranges (wrapped DEK 16 bytes, plaintext 32 bytes: 4 + 16 + nonce + 32
 """
 NOT_DECIDED = "that any modification of the blob is detected (AEAD strength, trusted); behaviour of the cloud providers"
 TRUSTED = ["ring AEAD seal/open", "ring SystemRandom"]
-ASSUMPTIONS = ["conditions of debug_assert!/debug_assert_eq! that the prover cannot discharge are taken to hold: they exist only under cfg(debug_assertions) and are absent from a release build (count in the evidence: debug_assertions_assumed)", "memory allocation succeeds"]
+ASSUMPTIONS = ["the release configuration is analysed (-C debug-assertions=off, overflow checks kept as obligations): debug_assert!() and cfg(debug_assertions) code is compiled out and not part of the decided behaviour", "memory allocation succeeds"]
 
 ENV = "roughenough::kms::envelope::EnvelopeEncryption"
 ENC = ENV + "::encrypt_seed"
